@@ -390,12 +390,32 @@ func sampleXMP(l *core.Lane) []byte {
 	return xs[l.Intn(len(xs))]
 }
 
+var aliasOffsets = []string{"+00:00", "-00:00", "+01:00", "+00:60", "+02:00", "+01:60", "-02:00", "-01:60"}
+
 // generatedInput draws class (b): a well-formed generated file of some container, with the
 // layout map of its size/count fields where the generator has one.
 func generatedInput(c *Ctx, l *core.Lane) (data []byte, name string, fmap []gen.FieldSpan) {
 	rec := gen.DrawRecord(l, 1500)
 	kind := l.Intn(7)
 	opts := gen.LayoutOpts{Foreign: 10, IFD1: true}
+	// knobs added after the first replays were committed live on a side lane, so that the main
+	// lane's traces (and with them the committed replay files) keep their meaning
+	x := c.L(l.Name + ":x")
+	if x.Chance(1, 12) {
+		// beyond the documented limits: up to 200 further tags in one directory
+		opts.Bulk = 40 + x.Intn(160)
+	}
+	if x.Chance(1, 5) {
+		// zone-offset texts from a small set in which several texts denote the same offset
+		// ("+00:00"/"-00:00", "+02:00"/"+01:60"): what one decode caches per offset must not name
+		// another decode's zone
+		for _, p := range []**string{&rec.Offset, &rec.OffsetOrig, &rec.OffsetDig} {
+			if *p != nil {
+				t := aliasOffsets[x.Intn(len(aliasOffsets))]
+				*p = &t
+			}
+		}
+	}
 	big := l.Bool()
 	switch kind {
 	case 5: // JPEG with Exif + XMP segments
@@ -411,6 +431,9 @@ func generatedInput(c *Ctx, l *core.Lane) (data []byte, name string, fmap []gen.
 		j := gen.DrawJPEG(l, o)
 		for _, s := range j.Segs {
 			fmap = append(fmap, gen.FieldSpan{Name: "seg.len", Off: s.Off + 2, Len: 2})
+			if s.Len > 0 {
+				fmap = append(fmap, gen.FieldSpan{Name: "end:seg", Off: s.Off + 2 + s.Len, Len: 0})
+			}
 			if s.Kind == "exif" {
 				for _, m := range enc.Map {
 					fmap = append(fmap, gen.FieldSpan{Name: m.Name, Off: m.Off + s.DataOff, Len: m.Len})
@@ -435,6 +458,7 @@ func generatedInput(c *Ctx, l *core.Lane) (data []byte, name string, fmap []gen.
 		o.XMP = sampleXMP(l)
 		o.Preview = append([]byte{0xff, 0xd8, 0xff, 0xdb}, l.Sub().Bytes(l.Intn(9000))...)
 		o.Surround, o.Use64 = l.Bool(), l.Bool()
+		o.Tail = c.L(l.Name + ":x").Intn(3)
 		cr := gen.DrawCR3(l, o)
 		return cr.Bytes, "gen:CR3+XMP+PRVW", cr.Map
 	default:
